@@ -192,11 +192,21 @@ def replay(case):
                                                          tuple(case["t"]), case["policy"]]})
         return [(sg, d) for sg, d, _c in r["viol"]]
     if case.get("public"):
+        # the public merges run as one session on one store (merge must be a pure function of its arguments,
+        # whatever was merged before): replay the session up to and including the reported call
         vals = list(itertools.product((0, 1, 2), repeat=2))
+        target = (tuple(case["a"]) if case["a"] is not None else None, tuple(case["o"]), tuple(case["t"]),
+                  case["policy"])
         with World() as w:
             odb, infos = _public_store(w, case["kind"], PKEYS, vals)
-            a = tuple(case["a"]) if case["a"] is not None else None
-            return public_one(odb, infos, a, tuple(case["o"]), tuple(case["t"]), case["policy"])[0]
+            for a in [None, *vals]:
+                for o in vals:
+                    for t in vals:
+                        for pol in case.get("policies") or list(POLICIES):
+                            v, _out = public_one(odb, infos, a, o, t, pol)
+                            if (a, o, t, pol) == target:
+                                return v
+        return []
     keys = [tuple(k) for k in case["keys"]]
     viol, _ = check_triple(keys, tuple(case["a"]), tuple(case["o"]), tuple(case["t"]),
                            case["policy"], _merge, MergeError)
@@ -323,7 +333,7 @@ def run_public(case):
                         res["trans"] += 1
                         res["states"].add(digest_obj((a, o, t)))
                         sub = {"public": True, "kind": case["kind"], "a": a, "o": o, "t": t,
-                               "policy": pol}
+                               "policy": pol, "policies": list(case["policies"])}
                         viol, outcome = public_one(odb, infos, a, o, t, pol)
                         res["outcomes"].add(outcome)
                         if outcome == "ok":
